@@ -2,12 +2,16 @@ package cache
 
 // White-box executor for C15 (injected with `go test -overlay`): the empty-ring error path of
 // cacheCluster, which the public constructor cannot reach (New exits on a zero total weight).
+// Every method must answer the cluster's errNotFound (the multi-key Del: an error naming the keys)
+// — never panic, never succeed.
 
 import (
 	"encoding/json"
 	"errors"
 	"os"
+	"strings"
 	"testing"
+	"time"
 
 	"github.com/zeromicro/go-zero/core/hash"
 )
@@ -21,12 +25,16 @@ func TestVerifC15Empty(t *testing.T) {
 	e3 := cc.Del("k")
 	e4 := cc.Del("a", "b")
 	e5 := cc.Take(&v, "k", func(any) error { return nil })
+	e6 := cc.SetWithExpire("k", "v", time.Minute)
+	e7 := cc.TakeWithExpire(&v, "k", func(any, time.Duration) error { return nil })
+	e8 := cc.Del()
 	out := map[string]any{
 		"pkg":  "cache",
 		"get":  e1 == errNF,
 		"set":  e2 == errNF,
-		"del":  e3 == errNF && e4 != nil,
+		"del":  e3 == errNF && e4 != nil && strings.Contains(e4.Error(), `"a"`) && strings.Contains(e4.Error(), `"b"`) && e8 == nil,
 		"incr": e5 == errNF,
+		"all":  e6 == errNF && e7 == errNF && cc.IsNotFound(errNF),
 	}
 	b, _ := json.Marshal(out)
 	if err := os.WriteFile(os.Getenv("VERIF_OUT"), append(b, '\n'), 0o644); err != nil {
